@@ -128,6 +128,10 @@ type pureDef struct {
 	pf         *PureFunc
 	params     []Term
 	resultT    types.Type
+	// viaParam[i] >= 0: heap parameter i is not the whole component but the backing array of
+	// slice parameter viaParam[i] (the function reads that component only through that slice),
+	// so that writes to other arrays leave the argument - and with it the value - unchanged
+	viaParam []int
 }
 
 func newFnVC(prog *Prog, fn *ssa.Function, fc *FuncContract) *FnVC {
